@@ -289,6 +289,26 @@ static void probeCls(Tok& t, RealVector const& params, RealMatrix const& X, std:
 		RealMatrix X1(1, nin); noalias(row(X1, 0)) = x; blas::vector<unsigned int> o1; c.eval(X1, o1); ea.push_back(o1(0));
 	}
 	putU(o, "eb", eb); putU(o, "e1", e1); putU(o, "eo", eo); putU(o, "ea", ea);
+	// with a recorded state, the reversed batch, the row inside a padded batch, an output buffer holding old values
+	{ boost::shared_ptr<State> st = c.createState(); blas::vector<unsigned int> os; c.eval(X, os, *st); putU(o, "es", std::vector<unsigned int>(os.begin(), os.end())); }
+	{
+		RealMatrix Xr(B, nin); for (std::size_t r = 0; r < B; ++r) noalias(row(Xr, r)) = row(X, B - 1 - r);
+		blas::vector<unsigned int> yr; c.eval(Xr, yr); std::vector<unsigned int> er(B);
+		for (std::size_t r = 0; r < B; ++r) er[r] = yr(B - 1 - r);
+		putU(o, "er", er);
+	}
+	{
+		std::vector<unsigned int> ex;
+		for (std::size_t r = 0; r < B; ++r) {
+			RealMatrix X2(B + 2, nin); blas::vector<unsigned int> y2;
+			noalias(row(X2, 0)) = row(X, r);
+			for (std::size_t q = 0; q < B; ++q) noalias(row(X2, q + 1)) = row(X, (q + r + 1) % B) * 0.5;
+			noalias(row(X2, B + 1)) = row(X, r) * 2.0 + blas::repeat(1.0, nin);
+			c.eval(X2, y2); ex.push_back(y2(0));
+		}
+		putU(o, "ex", ex);
+	}
+	{ blas::vector<unsigned int> og(B + 3, 777u); c.eval(X, og); putU(o, "eg", std::vector<unsigned int>(og.begin(), og.end())); }
 }
 
 int main(int argc, char** argv) {
